@@ -272,7 +272,8 @@ Definition cs_remove (x : cs_index) (b : block) : res cs_index :=
       let m := fold_left (revert_tx (is_bip30_unspendable (b_hash b) (b_height b)) (b_height b)) (b_txs b) (cs_mh x) in
       (* m_muhash.Finalize(out); Assert(read_out.second.muhash == out); *)
       if negb (bytes_eqb (v_muhash pv) (mh_finalize m)) then Err EAssertMuhash
-      else Ok {| cs_mh := mh_finalize_state m; cs_v := pv; cs_cur := b_prev b;
+      (* "Apply the other values from the DB to the member variables" (the digest itself is not a member) *)
+      else Ok {| cs_mh := mh_finalize_state m; cs_v := set_muhash pv (v_muhash (cs_v x)); cs_cur := b_prev b;
                  cs_dbh := cs_dbh x; cs_dbs := dbs'; cs_db_muhash := cs_db_muhash x |}
     end
   end.
@@ -297,7 +298,7 @@ Definition cs_custom_init (db : cs_index) (best : option (bytes * Z)) : res cs_i
     | None => Err EInitCorrupt
     | Some entry =>
       if negb (bytes_eqb (v_muhash entry) (mh_finalize m)) then Err EInitCorrupt
-      else Ok {| cs_mh := mh_finalize_state m; cs_v := entry; cs_cur := hash; cs_dbh := cs_dbh db; cs_dbs := cs_dbs db;
+      else Ok {| cs_mh := mh_finalize_state m; cs_v := set_muhash entry (v_muhash dbval0); cs_cur := hash; cs_dbh := cs_dbh db; cs_dbs := cs_dbs db;
                  cs_db_muhash := cs_db_muhash db |}
     end
   end.
